@@ -192,6 +192,66 @@ def _trace_module_source_file(module: str) -> str | None:
             sys.path.pop()
 
 
+def _literal_names(node: ast.AST) -> Set[str] | None:
+    """Strings in a list or tuple literal, or a sum of such literals. None if it is anything else."""
+    if isinstance(node, (ast.List, ast.Tuple)) and all(
+        isinstance(elt, ast.Constant) and isinstance(elt.value, str) for elt in node.elts
+    ):
+        return {elt.value for elt in node.elts}
+
+    if isinstance(node, ast.BinOp) and isinstance(node.op, ast.Add):
+        left = _literal_names(node.left)
+        right = _literal_names(node.right)
+        if left is not None and right is not None:
+            return left | right
+
+    return None
+
+
+def _infer_all(root: ast.Module) -> Set[str] | None:
+    """Try to figure out what __all__ may contain at runtime.
+
+    Returns None if __all__ is not defined, or if it is built in a way that is not understood.
+    """
+    is_all = ast.Name(id="__all__")
+    names: Set[str] = set()
+    defined = False
+    for node in core.walk(root, (ast.Assign, ast.AnnAssign, ast.AugAssign, ast.Call)):
+        if isinstance(node, ast.Assign):
+            if not any(core.match_template(target, is_all) for target in node.targets):
+                continue
+            value = node.value
+            defined = True
+        elif isinstance(node, ast.AnnAssign):
+            if not core.match_template(node.target, is_all) or node.value is None:
+                continue
+            value = node.value
+            defined = True
+        elif isinstance(node, ast.AugAssign):
+            if not core.match_template(node.target, is_all):
+                continue
+            if not isinstance(node.op, ast.Add):
+                return None
+            value = node.value
+        elif core.match_template(
+            node, ast.Call(func=ast.Attribute(value=is_all, attr=("extend", "append")))
+        ):
+            if len(node.args) != 1 or node.keywords:
+                return None
+            value = node.args[0]
+            if node.func.attr == "append":
+                value = ast.List(elts=[value])
+        else:
+            continue
+
+        found = _literal_names(value)
+        if found is None:
+            return None
+        names |= found
+
+    return names if defined else None
+
+
 @functools.lru_cache(maxsize=100_000)
 def trace_origin(name: str, source: str, *, __all__: bool = False) -> _TraceResult | None:
     """Trace the origin of a name in python source code.
@@ -226,33 +286,9 @@ def trace_origin(name: str, source: str, *, __all__: bool = False) -> _TraceResu
     # Without this, we could for example think that `os` was accessible in `pathlib`,
     # and end up putting `from pathlib import os` in generated code.
     if __all__:
-        all_template = ast.Assign(
-            targets=[ast.Name(id="__all__")], value=ast.List(elts={ast.Constant(value=str)})
-        )
-        all_extend_template = ast.Call(
-            func=ast.Attribute(value=ast.Name(id="__all__"), attr="extend"),
-            args=[(
-                ast.Tuple(elts={ast.Constant(value=str)}),
-                ast.List(elts={ast.Constant(value=str)}),
-        )],)
-        all_append_template = ast.Call(
-            func=ast.Attribute(value=ast.Name(id="__all__"), attr="append"), args=[str]
-        )
-        all_filter: Set[str] = set()
-        all_nodes = tuple(core.filter_nodes(root.body, all_template))
-
-        if all_nodes:
-            for node in all_nodes:
-                all_filter.update(constant.value for constant in node.value.elts)
-
-            for node in core.walk(root, all_extend_template):
-                all_filter.update(constant.value for constant in node.args[0].elts)
-
-            for node in core.walk(root, all_append_template):
-                all_filter.add(node.args[0])
-
-            if name not in all_filter:
-                return None
+        all_filter = _infer_all(root)
+        if all_filter is not None and name not in all_filter:
+            return None
 
     for node in sorted(nodes, key=lambda n: (n.lineno, n.col_offset), reverse=True):
         if isinstance(node, (ast.Import, ast.ImportFrom)):
